@@ -6,7 +6,13 @@ import tie
 
 RULE = ("tok+ast correspondence and CLI oracle on: all strings of length <= 3 (quick) / <= 4 (thorough) over a 30-character "
         "alphabet (exhaustive), unterminated literals, truncations and token/byte mutations of the suite and documentation "
-        "scripts, random Unicode, invalid UTF-8 byte strings; non-trivial = distinct (accept/reject, error kind, token-kind "
+        "scripts, random Unicode, invalid UTF-8 byte strings; string literals assembled from pieces (text, escapes, hex escapes, "
+        "slots with nested literals / braces / quotes / comments) with one lexical error (bad escape, bad hex digit, unescaped `$`, "
+        "`$` + non-brace) planted after every well-formed piece and after random piece sequences, in the first, second and third "
+        "literal of a file in 12 statement contexts (rejected with nothing printed whenever the implementation rejects the same error "
+        "at the start of a file's first literal), their well-formed and error-inside-a-slot "
+        "counterparts (run: no panic, no hang), every character after a backslash x payload shapes and code-point boundaries "
+        "(escape syntaxes of other languages), all 256 `\\xHH`; non-trivial = distinct (accept/reject, error kind, token-kind "
         "sequence) class")
 ASSUMPTIONS = ["LALRPOP's generated automaton is not modelled; the Lean recogniser is tied to it by the ast correspondence",
                "the `; expected ...` tail of parse messages is dictated by LALRPOP's tables and is not compared"]
@@ -91,6 +97,278 @@ def unlexed_text(src, tokblock):
     return None
 
 
+# ---------------------------------------------------------------------------- string literals assembled from pieces
+def ref_literal(text, i, interpolate):
+    """independent reference scanner of one string literal (docs/features.md "Strings", "Escape sequences"): `i` is the
+    offset just after the opening quote.  -> ("ok", offset after the closing quote) | ("eof",) | ("err", offset, kind)"""
+    n = len(text)
+    while i < n:
+        c = text[i]
+        if c == '"':
+            return "ok", i + 1
+        if c == "\\":
+            if i + 1 >= n:
+                return ("eof",)
+            e = text[i + 1]
+            if e in '\\"$nr':
+                i += 2
+                continue
+            if e != "x":
+                return "err", i + 1, "escape"
+            for k in (2, 3):
+                if i + k >= n:
+                    return ("eof",)
+                if text[i + k] not in "0123456789abcdefABCDEF":
+                    return "err", i + k, "hex"
+            i += 4
+            continue
+        if c == "$":
+            if not interpolate:
+                return "err", i, "dollar"
+            if i + 1 >= n:
+                return ("eof",)
+            if text[i + 1] != "{":
+                return "err", i + 1, "slot-start"
+            depth = 0
+            i += 1
+            while i < n:                     # the slot is copied raw: only braces count
+                if text[i] == "{":
+                    depth += 1
+                elif text[i] == "}":
+                    depth -= 1
+                i += 1
+                if depth == 0:
+                    break
+            else:
+                return ("eof",)
+            continue
+        i += 1
+    return ("eof",)
+
+
+GOOD_TEXT = ["a", " ", "é", "😀", "#", "{", "}", "{}", "'", "\\\\", '\\"', "\\$", "\\n", "\\r", "\\x41", "\\x00", "\\xff", "\\x7F",
+             "\\xe9", "\\\\\\\\", "\\$\\\\", "x41"]
+# slots: lexically complete whatever they hold (identifier, operators, object literal with braces, nested plain / interpolated
+# literal, a bare quote, a comment, nothing, text that is a lexical error of the SLOT, not of the file)
+GOOD_SLOT = ["${a}", "${ a }", "${a + b}", '${{"k": a}.k}', '${"s"}', '${$"${a}"}', "${f(a)}", "${a}${b}", "${a # c}", '${"}',
+             "${}", '${"\\q"}', '${$"${a} $b"}', '${"\\xg1"}', '${"$"}', "${a $ b}", "${\\}", "${a\n}"]
+BAD_BOTH = [("\\q", 1, "escape"), ("\\u", 1, "escape"), ("\\u{41}", 1, "escape"), ("\\0", 1, "escape"), ("\\t", 1, "escape"),
+            ("\\'", 1, "escape"), ("\\ ", 1, "escape"), ("\\é", 1, "escape"), ("\\{", 1, "escape"), ("\\}", 1, "escape"),
+            ("\\X41", 1, "escape"), ("\\\n", 1, "escape"), ("\\😀", 1, "escape"), ("\\N", 1, "escape"),
+            ("\\xg0", 2, "hex"), ("\\x4g", 3, "hex"), ('\\x"', 2, "hex"), ('\\x4"', 3, "hex"), ("\\xé9", 2, "hex"), ("\\x 1", 2, "hex"),
+            ("\\x+1", 2, "hex"), ("\\x4+", 3, "hex"), ("\\x-1", 2, "hex"), ("\\x\\x", 2, "hex"), ("\\x4\\", 3, "hex"), ("\\x$", 2, "hex"),
+            ("\\x4$", 3, "hex"), ("\\x{41}", 2, "hex"), ("\\x4\n", 3, "hex"), ("\\x١٢", 2, "hex")]
+BAD_PLAIN = [("$", 0, "dollar"), ("$a", 0, "dollar"), ("${a}", 0, "dollar"), ("$$", 0, "dollar"), ('$"', 0, "dollar"), ("$ ", 0, "dollar")]
+BAD_INTERP = [("$a", 1, "slot-start"), ("$ ", 1, "slot-start"), ("$$", 1, "slot-start"), ('$"', 1, "slot-start"), ("$}", 1, "slot-start"),
+              ("$(a)", 1, "slot-start"), ("$é", 1, "slot-start"), ("$\\", 1, "slot-start"), ("$\n", 1, "slot-start"), ("$[a]", 1, "slot-start"),
+              ("$😀", 1, "slot-start"), ("$\\${a}", 1, "slot-start"), ("$ {a}", 1, "slot-start")]
+LIT_TAILS = ["", " z", "\\n", "${b}", "}"]
+LIT_HEADER = 'print("ran")\na := "A"\nb := "B"\nfn f(s) {\n    return s\n}\n'
+# statement contexts of up to three literals (@1 @2 earlier literals, @L the literal under test)
+LIT_CONTEXTS = [("first", "x := @L\n", 0), ("first-arg", "print(@L)\n", 0), ("first-no-newline", "x := @L", 0),
+                ("second-line", "w := @1\nx := @L\nprint(\"after\")\n", 1), ("second-same-line", "w := @1; x := @L\n", 1),
+                ("second-operand", "x := @1 + @L\n", 1), ("third-list", "x := [@1, @2, @L]\n", 2),
+                ("third-object-value", "x := {\"k\": @1, \"m\": @2, \"n\": @L}\n", 2), ("second-object-key", "x := {@1: 1, @L: 2}\n", 1),
+                ("third-uncalled-fn", "w := @1\nfn g() {\n    v := @2\n    return @L\n}\n", 2),
+                ("second-after-comment", "w := @1 # \"open $ \\q\nx := @L\n", 1), ("third-index", "o := {\"A\": @1}\nprint(o[@2][@L])\n", 2)]
+
+
+def build_literal(pieces, interpolate):
+    return ('$"' if interpolate else '"') + "".join(pieces) + '"'
+
+
+def literal_cases(rng, thorough):
+    """-> [(src, expect, tag, base)] with expect 'reject' (one planted lexical error, everything else valid) or 'accept'; `base` is the
+    file whose first literal begins with the same error (None when `src` is that file)"""
+    good = {False: GOOD_TEXT, True: GOOD_TEXT + GOOD_SLOT}
+    bad = {False: BAD_BOTH + BAD_PLAIN, True: BAD_BOTH + BAD_INTERP}
+    out = []
+
+    def earlier(k):
+        interp = rng.random() < 0.6
+        lit = build_literal([rng.choice(good[interp]) for _ in range(rng.randrange(0, 4))], interp)
+        assert ref_literal(lit, 2 if interp else 1, interp) == ("ok", len(lit)), lit
+        return lit
+
+    def emit(prefix, badpiece, interp, ctxs):
+        for cname, tmpl, nearlier in ctxs:
+            tail = rng.choice(LIT_TAILS) if badpiece else ""
+            if not interp and "$" in tail:
+                tail = " z"
+            body = "".join(prefix)
+            if badpiece:
+                lit = ('$"' if interp else '"') + body + badpiece[0] + tail + '"'
+                # the plan is checked against the reference scanner: well-formed up to the planted piece, an error of the planted
+                # kind exactly there
+                v = ref_literal(lit, 2 if interp else 1, interp)
+                want = ("err", (2 if interp else 1) + len(body) + badpiece[1], badpiece[2])
+                assert v == want, (lit, v, want)
+            else:
+                lit = build_literal(prefix, interp)
+                v = ref_literal(lit, 2 if interp else 1, interp)
+                assert v == ("ok", len(lit)), (lit, v)
+            e1, e2 = earlier(1), earlier(2)
+            src = LIT_HEADER + tmpl.replace("@1", e1).replace("@2", e2).replace("@L", lit)
+            base = None
+            if badpiece and (prefix or nearlier or cname != "first"):
+                # the same error with nothing before it, in the first literal of a file
+                base = LIT_HEADER + "x := " + ('$"' if interp else '"') + badpiece[0] + tail + '"\n'
+            out.append((src, "reject" if badpiece else "accept",
+                        (cname, "interp" if interp else "plain", badpiece[2] if badpiece else "ok", len(prefix)), base))
+
+    for interp in (False, True):
+        # (a) the error after every single well-formed piece (and with nothing before it), one context each (rotating)
+        # (quick: with nothing before it every error, after a piece two or three errors of each kind, rotating through all of them)
+        k = 0
+        kinds = sorted({bp[2] for bp in bad[interp]})
+        bykind = {kd: [bp for bp in bad[interp] if bp[2] == kd] for kd in kinds}
+        for gi, g in enumerate([None] + good[interp]):
+            if thorough or g is None:
+                todo = bad[interp]
+            else:
+                todo = [bykind[kd][(gi * 3 + j) % len(bykind[kd])] for kd in kinds for j in range(3 if kd.startswith(("slot", "dollar")) else 2)]
+            for bp in todo:
+                ctxs = [LIT_CONTEXTS[(k + j * 5) % len(LIT_CONTEXTS)] for j in range(4 if thorough else 1)]
+                k += 1
+                emit([] if g is None else [g], bp, interp, ctxs)
+        # (b) after random sequences of 2..5 well-formed pieces (slots favoured in interpolated literals)
+        for _ in range(4000 if thorough else 400):
+            pool = good[interp]
+            pre = [rng.choice(GOOD_SLOT) if interp and rng.random() < 0.5 else rng.choice(pool) for _ in range(rng.randrange(2, 6))]
+            emit(pre, rng.choice(bad[interp]), interp, [rng.choice(LIT_CONTEXTS)])
+        # (c) the well-formed counterparts: every single piece in every context, random sequences
+        for g in good[interp]:
+            emit([g], None, interp, LIT_CONTEXTS if thorough else [rng.choice(LIT_CONTEXTS)])
+        for _ in range(1500 if thorough else 120):
+            emit([rng.choice(good[interp]) for _ in range(rng.randrange(0, 6))], None, interp, [rng.choice(LIT_CONTEXTS)])
+    return out
+
+
+CODEPOINTS = [0x0, 0x1, 0x22, 0x24, 0x41, 0x7f, 0x80, 0xff, 0x100, 0x7ff, 0x800, 0xfff, 0xd7ff, 0xd800, 0xdbff, 0xdc00, 0xdfff, 0xe000,
+              0xfffd, 0xfffe, 0xffff, 0x10000, 0x10ffff, 0x110000, 0x1fffff, 0xffffff, 0x1000000, 0x7fffffff, 0x80000000, 0xffffffff,
+              0x100000000, 0xffffffffffffffff, 0x10000000000000000]
+
+
+def escape_cases(thorough):
+    """a backslash followed by every printable ASCII character (and a few others) x payload shapes, and the escape syntaxes of
+    other languages (\\u{…}, \\uXXXX, \\UXXXXXXXX, \\x{…}, octal, \\N{…}) at the code-point boundaries: whatever the interpreter makes of
+    them, each file is run or cleanly rejected"""
+    letters = [chr(c) for c in range(0x20, 0x7f)] + ["\t", "\n", "\r", "\x00", "é", "😀", "\u2028"]
+    shapes = ["", "{41}", "{d800}", "0041", "{}", "{", "41", "{0}", "{10ffff}", "{110000}", "{D800}", "{dfff}", "{zz}", "{41"]
+    out = []
+    for c in letters:
+        for sh in (shapes if thorough or c in "uUxXNo0" else shapes[:3]):
+            out.append("\\" + c + sh)
+    for cp in CODEPOINTS:
+        hx = "%x" % cp
+        forms = ["\\u{%s}" % hx, "\\u{%s}" % hx.upper(), "\\u{%s}" % hx.zfill(6), "\\u{%s}" % hx.zfill(8), "\\x{%s}" % hx, "\\U{%s}" % hx,
+                 "\\u%s" % hx.zfill(4), "\\U%s" % hx.zfill(8), "\\N{U+%s}" % hx.upper(), "\\%o" % cp, "\\o{%o}" % cp, "\\%d" % cp, "\\u{%s" % hx,
+                 "\\u{ %s }" % hx, "\\u{+%s}" % hx, "\\u{-%s}" % hx, "\\u{0x%s}" % hx, "\\u{%s_}" % hx]
+        out.extend(forms if thorough else forms[:11])
+    out = list(dict.fromkeys(out))
+    srcs = []
+    for i, e in enumerate(out):
+        ctx_i = i % 4
+        if ctx_i == 0:
+            srcs.append(f'print("ran")\nx := "{e}"\nprint("after")\n')
+        elif ctx_i == 1:
+            srcs.append(f'print("ran")\na := "A"\nx := $"${{a}}{e}"\n')
+        elif ctx_i == 2:
+            srcs.append(f'print("ran")\nx := "caf\\xe9 {e} z"\n')
+        else:
+            srcs.append(f'print("ran")\nx := ["ok", $"{e}"]')
+    for v0 in range(0, 256, 32):        # every \xHH, both cases of the digits, alone and after a slot (these cannot fail)
+        srcs.append('print("ran")\na := "A"\nx := [\n' + "".join(f'    "\\x{v:02x}\\x{v:02X}", $"${{a}}\\x{v:02X}",\n' for v in range(v0, v0 + 32)) + ']\nprint("after")\n')
+    return srcs
+
+
+def literal_streams(ctx, model_ok):
+    thorough = ctx.tier == "thorough"
+    cases = literal_cases(ctx.rng, thorough)
+    seen = set()
+    cases = [c for c in cases if not (c[0] in seen or seen.add(c[0]))]
+    srcs = [c[0] for c in cases]
+    label = "literal-pieces"
+    tokb, _ = tie.front(ctx, "tok", srcs, label, model_ok)
+    astb, _ = tie.front(ctx, "ast", srcs, label, model_ok)
+    # command line: every file the front-end hook does not reject (the planted verdict is judged there), every well-formed one, and a
+    # sample of the rejected ones
+    need = [i for i, (c, ab) in enumerate(zip(cases, astb)) if c[1] == "accept" or not ab.startswith("ERR")]
+    rest = [i for i, (c, ab) in enumerate(zip(cases, astb)) if not (c[1] == "accept" or not ab.startswith("ERR"))]
+    need = sorted(need + ctx.rng.sample(rest, min(len(rest), 6000 if thorough else 500)))
+    cres = dict(zip(need, core.cli_batch([srcs[i] for i in need], timeout=5)))
+    ctx.count(label + ":cli", len(need))
+    ctx.cov["cli_reconfirmed"] += len(need)
+    res = [cres.get(i) for i in range(len(cases))]
+    # metamorphic (model-free): what the implementation itself rejects as a lexical error at the very beginning of the first literal of
+    # a file is a lexical error after well-formed pieces and in a later literal too (the verdict on the error is the
+    # implementation's own, so an extension of the escape syntax is not judged here)
+    bases = sorted({c[3] for c in cases if c[3] is not None})
+    bverdict = dict(zip(bases, core.batch("impl", "ast", bases)))
+    nbad = 0
+    accepted = []
+    order = sorted(range(len(cases)), key=lambda i: cases[i][1] != "reject")
+    for i in order:
+        (src, expect, tag, base), tb, ab, r = cases[i], tokb[i], astb[i], res[i]
+        ctx.nontrivial(("literal",) + tag)
+        ctx.dist("literal:" + expect + ":" + tag[2])
+        if r is None:
+            continue
+        why = None
+        if expect == "reject":
+            if base is not None and not bverdict[base].startswith("ERR Lex"):
+                ctx.exclude("literal_error_not_an_error_at_the_start_of_a_literal")
+            elif base is not None and (r["status"] != "103" or r["stdout"] != "" or not DIAG.match(r["stderr"])):
+                why = (f"a lexical error in a string literal ({tag[2]}; {' '.join(bverdict[base].split()[2:4])} when it opens the first literal of a "
+                       f"file) after {tag[3]} well-formed piece(s), context {tag[0]}: the file must be rejected with one diagnostic, status 103 and "
+                       f"nothing printed; got status {r['status']}, stdout {r['stdout'][:60]!r}, stderr {r['stderr'][:160]!r}")
+        else:
+            accepted.append(src)
+            if r["status"] in ("101", "timeout") or r["status"].startswith("died") or "panicked" in r["stderr"]:
+                why = (f"a file whose literals are lexically well-formed (context {tag[0]}) panics or hangs (status {r['status']}): "
+                       f"{r['stderr'][:160]!r}")
+            elif not ab.startswith("ERR") and "ERR" not in tb and not tb.startswith("TIMEOUT"):
+                u = unlexed_text(src, tb)
+                if u is not None:
+                    why = f"the file is accepted, but the character {u[1]!r} at offset {u[0]} belongs to no token, white space or comment"
+        if why is None:
+            ok, why2 = oracle_one(ctx, src, r, ab)
+            if not ok:
+                why = why2
+        if why is not None and nbad < 5:
+            nbad += 1
+            ctx.violation(why, src, {"cli": r, "front_end": ab[:300], "expected": expect, "error_first_in_a_file": base,
+                                     "front_end_on_that": bverdict.get(base, "")[:200]})
+    if cases:
+        k = need[len(need) // 3]
+        ctx.sample({"stream": label, "src": cases[k][0], "expected": cases[k][1], "cli": res[k]})
+    # the well-formed ones are run on both sides (leg B): slots are scanned and parsed when evaluated
+    _, dis = tie.run(ctx, accepted, label, model_ok, project=tie.proj_full)
+    tie.report_disagreements(ctx, dis, label)
+
+    # escape syntaxes
+    esc = escape_cases(thorough)
+    label = "escape-shapes"
+    astb, _ = tie.front(ctx, "ast", esc, label, model_ok)
+    tie.front(ctx, "tok", esc, label, model_ok)
+    res = core.cli_batch(esc, timeout=5)
+    ctx.count(label + ":cli", len(esc))
+    ctx.cov["cli_reconfirmed"] += len(esc)
+    nbad = 0
+    for src, ab, r in zip(esc, astb, res):
+        ctx.nontrivial(("escape", klass(ab), r["status"]))
+        ctx.dist("escape:" + ("rejected" if ab.startswith("ERR") else "accepted"))
+        ok, why = oracle_one(ctx, src, r, ab)
+        if ok and (r["status"] in ("101", "timeout") or "panicked" in r["stderr"]):
+            ok, why = False, f"a file made of declarations of string literals panics or hangs (status {r['status']}): {r['stderr'][:160]!r}"
+        if ok and r["status"] == "103" and r["stdout"] != "" and ab.startswith("ERR"):
+            ok, why = False, "rejected input but something was printed"
+        if not ok and nbad < 5:
+            nbad += 1
+            ctx.violation(why, src, {"cli": r, "front_end": ab[:300]})
+    ctx.sample({"stream": label, "src": esc[len(esc) // 2], "cli": res[len(esc) // 2]})
+
+
 def run(ctx, model_ok):
     rng = ctx.rng
     seeds = gens.seed_programs()
@@ -108,6 +386,30 @@ def run(ctx, model_ok):
                ("mutations", muts), ("unicode", uni)]
     ctx.cov["exhaustive"] = True
     cli_budget = 60000 if ctx.tier == "thorough" else 4000
+    # fail fast: a front end that hangs or crashes on a common shape makes every stream below crawl (each such case costs the
+    # watchdog's limit, thousands of them the whole time box): a sample of every stream is probed first, and what it finds is reported
+    # (command-line confirmed) instead of running the streams
+    import random as _random
+    prng = _random.Random(ctx.seed)
+    probe = []
+    for label, srcs in streams:
+        probe += prng.sample(srcs, min(len(srcs), 150))
+    pblocks = core.batch("impl", "ast", probe)
+    ctx.count("probe:ast", len(probe))
+    stuck = [(s, b) for s, b in zip(probe, pblocks) if b.startswith(("PANIC", "DIED", "TIMEOUT"))]
+    confirmed = 0
+    for s, b in sorted(stuck, key=lambda t: len(t[0]))[:4]:
+        r = core.run_cli(s, timeout=5)
+        ctx.cov["cli_reconfirmed"] += 1
+        if r["status"] in ("timeout", "101") or r["status"].startswith("-"):
+            confirmed += 1
+            ctx.violation("the front end " + ("does not terminate" if r["status"] == "timeout" else "crashes") + " on this input (" +
+                          b.strip()[:120] + f"; command line: status {r['status']})", s, {"cli": r, "front_end": b[:300],
+                          "inputs_of_the_probe_with_the_same_fate": len(stuck), "probe_size": len(probe)})
+    if confirmed >= 3:
+        ctx.cov["exhaustive"] = False
+        ctx.cov["stopped_after_probe"] = f"{len(stuck)} of {len(probe)} probed inputs hang or crash the front end; the streams were not run"
+        return
     for label, srcs in streams:
         srcs = list(dict.fromkeys(srcs))
         tokb, _ = tie.front(ctx, "tok", srcs, label, model_ok)
@@ -192,6 +494,7 @@ def run(ctx, model_ok):
             ctx.violation(f"a long or wide input is not decided cleanly: expected status {st}, got {r['status']}: {r['stderr'][:160]!r} (input starts {head!r})",
                           src, {"cli": {k2: v[:400] for k2, v in r.items()}})
             break
+    literal_streams(ctx, model_ok)
     # invalid UTF-8: read error, nothing run
     bad = [b"print(1)\n\xff", b"\xc3", b"\xe2\x82", b"a := \"\xf0\x9f\"\n", b"\x80print(1)\n", b"# \xfe\n"]
     res = core.cli_batch(bad)
